@@ -15,6 +15,7 @@ from ref import der
 from simworld import blobstore, prng
 
 LINE_A, LINE_B = 150_000, 400  # budget = A + B * len(input); max observed on valid input ~4k lines for ~1 KiB
+CPU_S = 5.0  # CPU seconds per call (a normal call needs about a millisecond): backstop for work outside the line / KDF counters
 MEM_C, MEM_D = 64 << 20, 64  # address-space growth budget (bytes) = C + D * len(input); valid input stays below a few MiB
 
 
@@ -156,6 +157,12 @@ FIELD_VALUES = {
 }
 
 
+def gkdi_pack(hash_name: str) -> str:
+    from ref import gkdi
+
+    return gkdi.pack_kdf_params(hash_name).hex()
+
+
 class C05(common.Check):
     id = "C05"
     level = "fault_enumeration"
@@ -164,8 +171,8 @@ class C05(common.Check):
             "0/1/2/true+-1/2^32-1); structure-aware DER mutants of every TLV node (emptied, dropped, duplicated, class/constructed bit "
             "flipped, high-tag form, leaf content shortened to every length / extended with consistent enclosing lengths, raw length octets: "
             "indefinite, 0, +-1, 2^32, 2^63, 2^64, non-minimal); whole-record garbage and PRNG byte "
-            "strings. Oracle: returns | needs-network | ValueError/NotImplementedError/NotEnougData/InvalidTag/InvalidUnwrap; <= 300 KDF "
-            "calls; <= 150000 + 400*len traced lines; address-space growth during the call <= 64 MiB + 64*len (kernel high-water mark); for the field mutations and a quarter of the others the undamaged blob is unprotected afterwards on the same "
+            "strings; well-formed records with long / odd domain and forest names; a cache on which an earlier load_key with unusable KDF parameters failed. Oracle: returns | needs-network | ValueError/NotImplementedError/NotEnougData/InvalidTag/InvalidUnwrap; <= 300 KDF "
+            "calls; <= 150000 + 400*len traced lines; <= 5 s of CPU time (backstop for work outside the interpreter: regular expressions, big numbers); address-space growth during the call <= 64 MiB + 64*len (kernel high-water mark); for the field mutations and a quarter of the others the undamaged blob is unprotected afterwards on the same "
             "cache and must still return its plaintext (locks created by the library are simulated: an acquire nobody can satisfy is the "
             "outcome 'blocks'). Non-trivial = stored bytes differ from a valid blob; distinct = distinct (blob, mutation).")
     components = {"client": "real (ncrypt_unprotect_secret and everything below it)", "blob store": "simulated fault injection",
@@ -173,7 +180,7 @@ class C05(common.Check):
                   "network": "simulated, none reachable; attempts classified at the seam"}
     assumptions = ["budgets are 4x (KDF) and >20x (lines) the maxima observed on valid input and affine in input length",
                    "PRNG byte strings are a weak generator and stated as such"]
-    required_fired = ("rot", "tear", "field", "der", "garbage", "outcome_needs-network", "outcome_raise", "outcome_ok", "valid_blob_after_damaged_one")
+    required_fired = ("rot", "tear", "field", "der", "garbage", "outcome_needs-network", "outcome_raise", "outcome_ok", "valid_blob_after_damaged_one", "names", "bad_load_key")
 
     def exhaustive(self, tier):
         return tier == "thorough"
@@ -217,6 +224,23 @@ class C05(common.Check):
             ci_end = cms.parse_blob(b.blob)["ci_end"]
             for label, data in der_mutations(b.blob, ci_end):
                 out.append([bi, 1, ["garbage", data.hex(), label]])
+        # well-formed records whose (unauthenticated) domain / forest names are long, odd or hostile to a validating pattern
+        NAMES = ["a" * 48 + "!", "a" * 30 + "\u00e9", "a." * 40 + "!", "-" * 60 + " ", "a" * 200, "x" * 31 + "." + "y" * 31 + "!", ".", "..", "a" * 63 + ".b" * 40 + "$",
+                 "0" * 40 + "\u200b", " " * 50, "a-" * 40 + "_"]
+        for bi in ([0, 1, 6] if tier == "quick" else range(0, len(cat), 2)):
+            if cat[bi].origin != "ref":
+                continue
+            for k, nm in enumerate(NAMES):
+                out.append([bi, 1, ["names", nm, "forest.test" if k % 2 else nm]])
+                if k % 3 == 0:
+                    out.append([bi, 0, ["names", "domain.test", nm]])
+        # an earlier load_key with unusable KDF parameters (it raises) on the cache that is used afterwards
+        BAD = [{"kdf_parameters": "00"}, {"kdf_parameters": ""}, {"kdf_parameters": gkdi_pack("MD5")}, {"kdf_parameters": gkdi_pack("SHA3_256")},
+               {"kdf_parameters": gkdi_pack("SHA256")[:-3]}, {"kdf_algorithm": "SP800_56A", "kdf_parameters": gkdi_pack("SHA256")}]
+        for bi in ([0, 7, 33] if tier == "quick" else range(0, len(cat), 3)):
+            for k, bad in enumerate(BAD):
+                for then_good in (False, True):
+                    out.append([bi, 1, ["badload", dict(bad, then_good=then_good)]])
         # garbage / PRNG byte strings
         n_rand = 3000 if tier == "quick" else 200000
         for i in range(n_rand):
@@ -236,13 +260,20 @@ class C05(common.Check):
     def run_case(self, case):
         bi, with_key, fault = case
         b = blobs.catalogue(next(iter(blobs._CAT)))[bi]
-        stored = blobstore.apply_fault(b.blob, fault[:2] if fault[0] == "garbage" else fault, b.offsets)
-        kind = {"flip": "rot", "trunc": "tear", "field": "field", "garbage": "der" if (len(fault) > 2 and fault[2].startswith("der")) else "garbage"}[fault[0]]
+        bad_load = None
+        if fault[0] == "names":
+            stored = blobs.with_names(b, fault[1], fault[2])
+        elif fault[0] == "badload":
+            stored, bad_load = b.blob, fault[1]
+        else:
+            stored = blobstore.apply_fault(b.blob, fault[:2] if fault[0] == "garbage" else fault, b.offsets)
+        kind = {"flip": "rot", "trunc": "tear", "field": "field", "names": "names", "badload": "bad_load_key",
+                "garbage": "der" if (len(fault) > 2 and fault[2].startswith("der")) else "garbage"}[fault[0]]
         fired = {kind: 1}
         limit = LINE_A + LINE_B * len(stored)
-        follow = bool(with_key) and (fault[0] == "field" or len(stored) % 4 == 1)  # the undamaged blob afterwards, on the same cache
+        follow = bool(with_key) and not bad_load and (fault[0] == "field" or len(stored) % 4 == 1)  # the undamaged blob afterwards, on the same cache
         with common.VmWatch() as vm:
-            out, world, cnt = blobs.unprotect_stored(b, stored, with_key=bool(with_key), line_limit=limit, then_valid=follow)
+            out, world, cnt = blobs.unprotect_stored(b, stored, with_key=bool(with_key), line_limit=limit, then_valid=follow, bad_load_first=bad_load, cpu_limit=CPU_S)
         peak = vm.growth
         probes = {"outcome_" + out.kind: 1}
         viol = None
@@ -253,7 +284,7 @@ class C05(common.Check):
                                     f"blob {b.name} mutation {fault[:1] + [str(fault[1])[:80]] + fault[2:]} (key material {'offline' if with_key else 'none'}): {out.exc!r}")
         elif out.kind == "budget":
             et, frame = drive.exc_sig(out)
-            which = "kdf" if "KDF" in str(out.exc) else "lines"
+            which = "kdf" if "KDF" in str(out.exc) else ("cpu" if "CPU" in str(out.exc) else "lines")
             viol = common.violation("C05", "unbounded-work", "sync", which, frame, "",
                                     f"blob {b.name} mutation {fault[:1] + [str(fault[1])[:80]] + fault[2:]}: {out.exc} (kdf={cnt['kdf']} lines={cnt['lines']} len={len(stored)})")
         elif out.kind in ("blocks", "spin"):
@@ -272,7 +303,7 @@ class C05(common.Check):
                                         f"after blob {b.name} mutation {fault[:1] + [str(fault[1])[:80]] + fault[2:]} ended with {out.brief()}, the undamaged blob on the "
                                         f"same cache gave {after.brief()} {after.exc!r}")
         probes["max_lines_per_byte_x100"] = 0
-        return {"viol": viol, "digest": out.brief() + str(cnt["kdf"]), "key": common.key_hash([bi, with_key, fault[:2]]) if stored != b.blob else None,
+        return {"viol": viol, "digest": out.brief() + str(cnt["kdf"]), "key": common.key_hash([bi, with_key, fault[:2]]) if (stored != b.blob or bad_load) else None,
                 "fired": fired, "probes": probes, "vtime_ns": 0}
 
     def warmup(self, cases):
